@@ -6,6 +6,7 @@ use crate::runner::{ScenFuture, Scenario};
 use crate::world::*;
 use rand::Rng;
 use serde_json::json;
+use std::sync::Arc;
 use std::time::Duration;
 
 pub static MUTUAL: Scenario = Scenario {
@@ -55,7 +56,9 @@ fn run(input: RunInput) -> ScenFuture {
             cfg_a.max_concurrent_outstanding_connecting_connections = Some(w.param("outstanding_a", 1, 2) as usize);
             cfg_b.max_concurrent_outstanding_connecting_connections = Some(w.param("outstanding_b", 1, 2) as usize);
         }
-        let a = w.start_node(w.spec(1, cfg_a), Svc::echo(&w)).unwrap();
+        let svc_a = Svc::echo(&w);
+        let ha = svc_a.handle();
+        let a = w.start_node(w.spec(1, cfg_a), svc_a).unwrap();
         let svc_b = Svc::echo(&w);
         let hb = svc_b.handle();
         let b = w.start_node(w.spec(2, cfg_b), svc_b).unwrap();
@@ -72,25 +75,37 @@ fn run(input: RunInput) -> ScenFuture {
         // an application that uses a connection the moment it is announced: a request goes out over
         // whichever connection registers first - possibly the one that is about to lose - and its
         // handler on the other side may be CPU-bound for a while (it cannot be dropped meanwhile)
-        if w.flag("eager_application", 0.4) {
+        // (some of these requests are long polls: one sent over the connection that loses ends with
+        // that connection - on both sides; pending[k] counts the calls of side k still pending)
+        let pending = [Arc::new(std::sync::atomic::AtomicI64::new(0)), Arc::new(std::sync::atomic::AtomicI64::new(0))];
+        let eager = w.flag("eager_application", 0.4);
+        if eager {
             for (k, (me, other)) in [(a.net.clone(), b.peer_id), (b.net.clone(), a.peer_id)].into_iter().enumerate() {
                 let Ok((mut rx, _)) = me.subscribe() else { continue };
                 let mut re = w.rng(&format!("wl:eager{k}"));
                 let w2 = w.clone();
+                let pend = pending[k].clone();
                 tokio::spawn(async move {
                     while let Ok(ev) = rx.recv().await {
                         if matches!(ev, anemo::types::PeerEvent::NewPeer(p) if p == other) {
                             let hold: u64 = if re.gen_bool(0.6) { re.gen_range(20..600) } else { 0 };
+                            let delay: u64 = if re.gen_bool(0.5) { 600_000 } else { 0 };
                             let me2 = me.clone();
+                            let pend = pend.clone();
                             w2.probe("request-over-the-first-connection-announced");
                             tokio::spawn(async move {
-                                let _ = me2.rpc(other, anemo::Request::new(bytes::Bytes::from_static(b"eager")).with_header("x-hold-ms", hold.to_string())).await;
+                                pend.fetch_add(1, std::sync::atomic::Ordering::SeqCst);
+                                let _ = me2.rpc(other, anemo::Request::new(bytes::Bytes::from_static(b"eager")).with_header("x-hold-ms", hold.to_string()).with_header("x-delay-ms", delay.to_string())).await;
+                                pend.fetch_sub(1, std::sync::atomic::Ordering::SeqCst);
                             });
                         }
                     }
                 });
             }
         }
+        // the caller of one of the two dials may abandon its call (drop the future) at any moment:
+        // the dial is the network's business from the moment it was requested
+        let abandon = w.flag("a_dial_is_abandoned_by_its_caller", 0.2).then(|| (w.flag("abandoning_side_is_a", 0.5), w.param("abandoned_after_us", 0, 30_000) as u64));
         let off_a = w.param("dial_offset_a_us", 0, 40_000) as u64;
         let off_b = w.param("dial_offset_b_us", 0, 40_000) as u64;
         // "never on arrival order": a dial-back that comes seconds later follows the same rule
@@ -104,20 +119,32 @@ fn run(input: RunInput) -> ScenFuture {
 
         let fa = async {
             sleep_us(off_a).await;
-            let r = if with_id {
-                a.net.connect_with_peer_id(b.addr, b.peer_id).await
-            } else {
-                a.net.connect(b.addr).await
+            let call = async {
+                if with_id {
+                    a.net.connect_with_peer_id(b.addr, b.peer_id).await
+                } else {
+                    a.net.connect(b.addr).await
+                }
+            };
+            let r = match abandon {
+                Some((true, us)) => tokio::time::timeout(Duration::from_micros(us), call).await.unwrap_or_else(|_| Err(anyhow::anyhow!("abandoned by the caller"))),
+                _ => call.await,
             };
             w.event(format!("dial a>b {}", if r.is_ok() { "ok" } else { "err" }));
             r
         };
         let fb = async {
             sleep_us(off_b).await;
-            let r = if with_id {
-                b.net.connect_with_peer_id(a.addr, a.peer_id).await
-            } else {
-                b.net.connect(a.addr).await
+            let call = async {
+                if with_id {
+                    b.net.connect_with_peer_id(a.addr, a.peer_id).await
+                } else {
+                    b.net.connect(a.addr).await
+                }
+            };
+            let r = match abandon {
+                Some((false, us)) => tokio::time::timeout(Duration::from_micros(us), call).await.unwrap_or_else(|_| Err(anyhow::anyhow!("abandoned by the caller"))),
+                _ => call.await,
             };
             w.event(format!("dial b>a {}", if r.is_ok() { "ok" } else { "err" }));
             r
@@ -132,13 +159,17 @@ fn run(input: RunInput) -> ScenFuture {
         if let Ok(p) = &rb {
             w.check(*p == a.peer_id, "dial-returned-wrong-id", "b>a", || "b's dial returned another identity".into());
         }
+        let abandoned = |r: &anyhow::Result<anemo::PeerId>| r.as_ref().err().map(|e| e.to_string() == "abandoned by the caller").unwrap_or(false);
+        if abandoned(&ra) || abandoned(&rb) {
+            w.probe("dial-abandoned-by-its-caller");
+        }
         // (with a limit the later of two staggered dials is legitimately refused: the pair is
         // already connected and the listener is full)
         if !lossy && limited {
-            w.check(ra.is_ok() || rb.is_ok(), "dial-failed-without-loss", "mutual-limited", || "both dials of a mutual dial were refused".into());
+            w.check(ra.is_ok() || rb.is_ok() || abandoned(&ra) || abandoned(&rb), "dial-failed-without-loss", "mutual-limited", || "both dials of a mutual dial were refused".into());
         }
         if !lossy && !limited {
-            w.check(ra.is_ok() && rb.is_ok(), "dial-failed-without-loss", "mutual", || {
+            w.check((ra.is_ok() || abandoned(&ra)) && (rb.is_ok() || abandoned(&rb)), "dial-failed-without-loss", "mutual", || {
                 format!("a dial failed although no datagram was lost: a>b={:?} b>a={:?}", ra.as_ref().err().map(|e| e.to_string()), rb.as_ref().err().map(|e| e.to_string()))
             });
         }
@@ -165,6 +196,15 @@ fn run(input: RunInput) -> ScenFuture {
         let b_lists = pb.contains(&a.peer_id);
         w.check(pa.len() <= 1 && pb.len() <= 1, "duplicate-listing", "quiescence", || format!("a lists {} peers, b lists {}", pa.len(), pb.len()));
         w.check(a_lists == b_lists, "views-not-mutual", "quiescence", || format!("after quiet period a lists b = {a_lists}, b lists a = {b_lists}"));
+        // a long poll that went out over the connection that lost has ended with it, on both sides:
+        // as many handlers are still running at one node as the other node has calls pending
+        if eager && !lossy {
+            let (at_b, from_a) = (hb.inflight(), pending[0].load(std::sync::atomic::Ordering::SeqCst));
+            let (at_a, from_b) = (ha.inflight(), pending[1].load(std::sync::atomic::Ordering::SeqCst));
+            w.check(at_b <= from_a && at_a <= from_b, "handler-outlives-its-connection", "quiescence", || format!("after the quiet period {at_b} handlers are running at b while a has {from_a} calls pending, and {at_a} at a while b has {from_b} pending: a request served over the connection that lost is still being worked on"));
+        }
+        // (an abandoned dial may or may not have been carried out: which connection survives is only
+        // judged when both calls returned Ok)
         let both_ok = ra.is_ok() && rb.is_ok();
         if !lossy {
             w.check(a_lists && b_lists, "not-connected-after-mutual-dial", "quiescence", || {
